@@ -1,0 +1,8 @@
+//go:build verif
+
+package command
+
+// Constructors of unexported error values, for the verification harness (scripted backends).
+
+func VerifErrSaveMetaTransactionNotFound() error   { return newErrSaveMetadataTransactionNotFound() }
+func VerifErrDeleteMetaTransactionNotFound() error { return newErrDeleteMetadataTransactionNotFound() }
